@@ -108,20 +108,22 @@ CELL = ["str", "none", "nan"]
 class Transform(Contract):
     """single=False: 2 rows x (a, b, numeric x); every categorical cell is an arbitrary string, None or NaN"""
     variants = [(se, cells) for se in (False, True) for cells in
-                [("str", "str"), ("none", "str"), ("str", "nan"), ("nan", "none")]]
+                [("str", "str"), ("none", "str"), ("str", "nan"), ("nan", "none")]] + \
+               [(False, ("str", "str"), "categorical-only"), (True, ("nan", "str"), "categorical-only")]     # frames without any numeric column
     NROWS = 1
     max_paths = 30000
 
     def setup(self, E, v):
-        skip, kinds = v
+        skip, kinds = v[0], v[1]
+        only_cat = len(v) > 2
         k = cats(E)
         s = _self(E, skip_errors=skip, columns=list(COLS))
         s.fields["_fit_columns"] = list(COLS)
         s.fields["_schema"] = schema_of(E, k)
         mk = lambda kind, nm: E.str(nm) if kind == "str" else (None if kind == "none" else NaN)
         data = {"a": [mk(kinds[0], "a0")], "b": [mk(kinds[1], "b0")], "x": [E.real("x0")]}
-        X = pdmodel.new_frame(["a", "x", "b"], data)
-        return dict(self=s, X=X, _cats=k, _data=data)
+        X = pdmodel.new_frame(["a", "b"] if only_cat else ["a", "x", "b"], {c: v_ for c, v_ in data.items() if not (only_cat and c == "x")})
+        return dict(self=s, X=X, _cats=k, _data=data, _only_cat=only_cat)
 
     def _unseen(self, a):
         conds = []
@@ -141,14 +143,23 @@ class Transform(Contract):
         out = {}
         if not s.fields["skip_errors"]:
             out["unseen_category_raises"] = z3.Not(self._unseen(a))
-        ok = isinstance(res, Obj) and res.tag == "DataFrame" and res.fields.get("$parts") is not None and len(res.fields["$parts"]) == 2
-        out["numeric_columns_and_indicator_block_side_by_side"] = z3.BoolVal(ok)
-        if not ok:
-            return out
-        dfnum, newdf = res.fields["$parts"]
-        out["numeric_columns_pass_through_with_the_index"] = z3.BoolVal(
-            dfnum.fields.get("$cols") == ["x"] and dfnum.fields["$data"]["x"] == a._data["x"]
-            and newdf.fields.get("$index") is a.X.fields["$index"] and dfnum.fields.get("$index") is a.X.fields["$index"])
+        if a._only_cat:
+            # no numeric column: the result is the indicator block alone - a frame with the rows (the index) of the input
+            ok = isinstance(res, Obj) and res.tag == "DataFrame" and res.fields.get("$parts") is None and isinstance(res.fields.get("$matrix"), NdArr)
+            out["the_indicator_block_alone_is_a_frame"] = z3.BoolVal(ok)
+            if not ok:
+                return out
+            newdf = res
+            out["the_rows_keep_the_index_of_the_input"] = z3.BoolVal(res.fields.get("$index") is a.X.fields["$index"])
+        else:
+            ok = isinstance(res, Obj) and res.tag == "DataFrame" and res.fields.get("$parts") is not None and len(res.fields["$parts"]) == 2
+            out["numeric_columns_and_indicator_block_side_by_side"] = z3.BoolVal(ok)
+            if not ok:
+                return out
+            dfnum, newdf = res.fields["$parts"]
+            out["numeric_columns_pass_through_with_the_index"] = z3.BoolVal(
+                dfnum.fields.get("$cols") == ["x"] and dfnum.fields["$data"]["x"] == a._data["x"]
+                and newdf.fields.get("$index") is a.X.fields["$index"] and dfnum.fields.get("$index") is a.X.fields["$index"])
         mat = newdf.fields["$matrix"]
         sch, pos, vec = s.fields["_schema"]
         out["indicator_columns_are_the_schema"] = z3.BoolVal(newdf.fields["$cols"] == sch and isinstance(mat, NdArr)
